@@ -323,3 +323,23 @@ package apicodec
 //@   ensures mvccgetbykey: req.Type == tikvrpc.CmdMvccGetByKey && result1 == nil ==> result0 == resp && (resp.Resp.(*kvrpcpb.MvccGetByKeyResponse).RegionError != nil && resp.Resp.(*kvrpcpb.MvccGetByKeyResponse).RegionError.KeyNotInRegion != nil ==> decoded(c, old(resp.Resp.(*kvrpcpb.MvccGetByKeyResponse).RegionError.KeyNotInRegion.Key), resp.Resp.(*kvrpcpb.MvccGetByKeyResponse).RegionError.KeyNotInRegion.Key))
 //@   ensures splitregion: req.Type == tikvrpc.CmdSplitRegion && result1 == nil ==> result0 == resp && (resp.Resp.(*kvrpcpb.SplitRegionResponse).RegionError != nil && resp.Resp.(*kvrpcpb.SplitRegionResponse).RegionError.KeyNotInRegion != nil ==> decoded(c, old(resp.Resp.(*kvrpcpb.SplitRegionResponse).RegionError.KeyNotInRegion.Key), resp.Resp.(*kvrpcpb.SplitRegionResponse).RegionError.KeyNotInRegion.Key))
 //@   ensures gc: req.Type == tikvrpc.CmdGC && result1 == nil ==> result0 == resp && (resp.Resp.(*kvrpcpb.GCResponse).RegionError != nil && resp.Resp.(*kvrpcpb.GCResponse).RegionError.KeyNotInRegion != nil ==> decoded(c, old(resp.Resp.(*kvrpcpb.GCResponse).RegionError.KeyNotInRegion.Key), resp.Resp.(*kvrpcpb.GCResponse).RegionError.KeyNotInRegion.Key)) && (resp.Resp.(*kvrpcpb.GCResponse).Error != nil && resp.Resp.(*kvrpcpb.GCResponse).Error.Conflict != nil ==> decoded(c, old(resp.Resp.(*kvrpcpb.GCResponse).Error.Conflict.Key), resp.Resp.(*kvrpcpb.GCResponse).Error.Conflict.Key) && decoded(c, old(resp.Resp.(*kvrpcpb.GCResponse).Error.Conflict.Primary), resp.Resp.(*kvrpcpb.GCResponse).Error.Conflict.Primary))
+
+// ---- construction (concrete bytes): the 4-byte prefix is the mode byte followed by the 3-byte big-endian keyspace id,
+// and the end key is the prefix read as a big-endian 32-bit number plus one. With the mode byte 'r' or 'x' that sum
+// cannot overflow, so the end key is the least 4-byte string above every key that carries the prefix - the byte-level
+// fact behind the abstract invariant ksOK (endKey == pend(prefix)) used above; the step from this arithmetic fact to the
+// lexicographic statement is not machine-checked.
+//@ func getIDByte
+//@   prop C15
+//@   ensures ok: result1 == nil ==> len(result0) == 3 && keyspaceID < 16777216 && mathint(result0[0]) == mathint(keyspaceID) / 65536 && mathint(result0[1]) == (mathint(keyspaceID) / 256) % 256 && mathint(result0[2]) == mathint(keyspaceID) % 256
+//@   ensures range: keyspaceID >= 16777216 ==> result1 != nil
+
+//@ func NewCodecV2
+//@   prop C15
+//@   opaque-callee GetKeyspaceIdentity
+//@   ensures built: result1 == nil ==> typeIs(result0, *codecV2) && len(result0.(*codecV2).prefix) == 4 && cap(result0.(*codecV2).prefix) == 4 && len(result0.(*codecV2).endKey) == 4 &&
+//@       mathint(result0.(*codecV2).prefix[0]) == ite(mode == ModeRaw, 114, 120) &&
+//@       mathint(result0.(*codecV2).prefix[1]) * 65536 + mathint(result0.(*codecV2).prefix[2]) * 256 + mathint(result0.(*codecV2).prefix[3]) == mathint(result0.(*codecV2).keyspaceID.KeyspaceId) && result0.(*codecV2).keyspaceID.KeyspaceId < 16777216 &&
+//@       mathint(result0.(*codecV2).endKey[0]) * 16777216 + mathint(result0.(*codecV2).endKey[1]) * 65536 + mathint(result0.(*codecV2).endKey[2]) * 256 + mathint(result0.(*codecV2).endKey[3]) ==
+//@       mathint(result0.(*codecV2).prefix[0]) * 16777216 + mathint(result0.(*codecV2).prefix[1]) * 65536 + mathint(result0.(*codecV2).prefix[2]) * 256 + mathint(result0.(*codecV2).prefix[3]) + 1
+//@   ensures modes: result1 == nil ==> mode == ModeRaw || mode == ModeTxn
